@@ -501,18 +501,83 @@ fn sort_job(job: &Json) -> Json {
         rec["keybits"] = Json::Array(kc.vals.iter().map(|x| json!((0..w).map(|i| ((x >> i) & 1) as u64).collect::<Vec<_>>())).collect());
     }
     let t = table_type(&cols);
-    let res = guarded(move || {
-        let v = table_value(&cols)?;
-        run_graph(vec![t], vec![v], move |g, ins| {
-            if integer {
-                g.custom_op(CustomOperation::new(SortByIntegerKey { key: "key".to_owned() }), ins)
-            } else {
-                g.sort(ins[0].clone(), "key".to_owned())
-            }
-        })
+    let compiled = job.get("compiled").and_then(|x| x.as_u64());
+    rec["compiled"] = json!(compiled.is_some() as u64);
+    let job2 = job.clone();
+    let res = guarded(move || match compiled {
+        Some(seed) => run_sort_compiled(&cols, integer, seed, &job2),
+        None => {
+            let v = table_value(&cols)?;
+            run_graph(vec![t], vec![v], move |g, ins| {
+                if integer {
+                    g.custom_op(CustomOperation::new(SortByIntegerKey { key: "key".to_owned() }), ins)
+                } else {
+                    g.sort(ins[0].clone(), "key".to_owned())
+                }
+            })
+        }
     });
     rec["res"] = outcome_json(res);
     rec
+}
+
+thread_local! {
+    static SORT_COMPILED: std::cell::RefCell<HashMap<String, (Type, ciphercore_base::graphs::Context)>> = std::cell::RefCell::new(HashMap::new());
+}
+
+/// The compiled (secure) sort: one graph input per column (owner per column = job["owners"], default party 0), the
+/// table is assembled in the graph and sorted; compiled by the real compile_context (inline mode job["mode"], default
+/// Simple; result revealed to job["outs"], default party 0) and evaluated by one SimpleEvaluator seeded with `seed`
+/// (the protocol's internal randomness).  The compiled context is cached per (column types, owners, outs, mode).
+fn run_sort_compiled(cols: &[Col], integer: bool, seed: u64, job: &Json) -> Result<(Type, Value)> {
+    use ciphercore_base::evaluators::simple_evaluator::SimpleEvaluator;
+    use ciphercore_base::evaluators::Evaluator;
+    use ciphercore_base::mpc::mpc_compiler::IOStatus;
+    let statuses = |f: &str, n: usize| -> Vec<IOStatus> {
+        match job.get(f).and_then(|x| x.as_array()) {
+            Some(a) => a.iter().map(cc_conform::compile::io_status).collect(),
+            None => vec![IOStatus::Party(0); n],
+        }
+    };
+    let owners = statuses("owners", cols.len());
+    let outs = statuses("outs", 1);
+    let mode = job.get("mode").and_then(|x| x.as_str()).unwrap_or("Simple").to_owned();
+    let sig: Vec<String> = cols.iter().map(|c| format!("{}:{}:{:?}", c.name, export::st_name(&c.st), c.shape)).collect();
+    let ckey = format!("{}|{:?}|{}|{}|{}", integer, sig, job["owners"], job["outs"], mode);
+    let vals = cols.iter().map(col_value).collect::<Result<Vec<_>>>()?;
+    let mut s = [0u8; 16];
+    s[..8].copy_from_slice(&seed.to_le_bytes());
+    let cached = SORT_COMPILED.with(|m| m.borrow().get(&ckey).cloned());
+    let (t, ctx) = match cached {
+        Some(x) => x,
+        None => {
+            let c = create_context()?;
+            let g = c.create_graph()?;
+            let mut named = vec![];
+            for col in cols {
+                named.push((real_name(&col.name), g.input(col_type(col))?));
+            }
+            let tab = g.create_named_tuple(named)?;
+            let o = if integer {
+                g.custom_op(CustomOperation::new(SortByIntegerKey { key: "key".to_owned() }), vec![tab])?
+            } else {
+                g.sort(tab, "key".to_owned())?
+            };
+            o.set_as_output()?;
+            g.finalize()?;
+            g.set_as_main()?;
+            c.finalize()?;
+            let r = cc_conform::compile::compile(&c, &owners, &outs, &mode)?;
+            let ctx = r.mapped.get_context();
+            // the type the compiled graph actually returns (the judge compares it with the input table's type)
+            let t = ctx.get_main_graph()?.get_output_node()?.get_type()?;
+            SORT_COMPILED.with(|m| m.borrow_mut().insert(ckey, (t.clone(), ctx.clone())));
+            (t, ctx)
+        }
+    };
+    let mut ev = SimpleEvaluator::new(Some(s))?;
+    let v = ev.evaluate_context(ctx, vals)?;
+    Ok((t, v))
 }
 
 fn arr_outcome(res: std::result::Result<(Type, Value), (String, String)>, ints: bool) -> Json {
